@@ -18,10 +18,18 @@ class XmlGenerator(TreeListener):
         self.xml = {}
 
     def exitEquation(self, tree: ast.Equation):
+        def operand(node):
+            if isinstance(node, ast.Symbol):
+                # Equations from declarations (Real y = 2 * x) refer to the symbol
+                # itself. Its component element belongs to the class and would be
+                # moved out of the equation when it is added there: refer to it by name.
+                return E("local", name=node.name)
+            return self.xml[node]
+
         self.xml[tree] = E(
             "equal",
-            self.xml[tree.left],
-            self.xml[tree.right],
+            operand(tree.left),
+            operand(tree.right),
         )
 
     def exitExpression(self, tree: ast.Expression):
